@@ -66,6 +66,8 @@ DEFAULT_OPTS = {
     "p_fresh_input": 0.25,    # a leaf reads a brand new process input
     "p_dup_par": 0.0,         # two children of a parallel chain produce the same name
     "p_partial_sum": 0.0,     # a child of an additive chain does not produce a summed name
+    "p_overwrite_from_elsewhere": 0.4,  # an overwriting leaf reads only fresh process inputs
+    "p_read_overwritten": 0.7,  # the leaf following an overwrite in a chain reads the new value
     "p_structural_zero": 0.2,  # an output of a leaf ignores one of the leaf inputs
     "fmt": "mixed",
 }
@@ -89,6 +91,14 @@ def gen_leaf(ctx, avail, overwritable=(), must_out=(), fresh_outs=True, allow_fr
         # prefer recent variables so that real chains (depth) appear, but keep pass-through of old ones
         w = np.linspace(1.0, 3.0, len(avail))
         ins = [avail[j] for j in sorted(rng.choice(len(avail), size=k, replace=False, p=w / w.sum()))]
+    # a discipline of the same chain has just re-produced some names: read one of them (so that the overwritten
+    # value matters downstream)
+    prefer = [n for n in getattr(ctx, "prefer_in", ()) if n in avail]
+    ctx.prefer_in = []
+    if prefer and ctx.p("p_read_overwritten"):
+        nm = prefer[int(rng.integers(len(prefer)))]
+        if nm not in ins:
+            ins.append(nm)
     if (not ins) or (allow_fresh_input and ctx.p("p_fresh_input")):
         ins.append(ctx.fresh("x"))
     outs = list(must_out)
@@ -102,6 +112,9 @@ def gen_leaf(ctx, avail, overwritable=(), must_out=(), fresh_outs=True, allow_fr
             outs.append(cand)
             if cand in ins:
                 ins.remove(cand)
+            if allow_fresh_input and ctx.p("p_overwrite_from_elsewhere"):
+                # the new value comes from process inputs the replaced value does not depend on
+                ins = [ctx.fresh("x")] + ([ctx.fresh("x")] if rng.random() < 0.3 else [])
         elif fresh_outs:
             outs.append(ctx.fresh("v"))
         else:
@@ -163,6 +176,7 @@ def gen_chain(ctx, avail, overwritable, depth, n=None):
         ch = gen_node(ctx, kind, local, over, depth + 1)
         children.append(ch)
         ci, co = process_io(ch)
+        ctx.prefer_in = [nm for nm in co if nm in local and nm not in ci]
         for nm in ci + co:
             if nm not in local:
                 local.append(nm)
@@ -257,7 +271,7 @@ def random_point(rng, spec, names=None):
     return {n: np.round(rng.uniform(-1, 1, spec["sizes"][n]), 3).tolist() for n in names}
 
 
-def random_requests(rng, spec):
+def random_requests(rng, spec, p_targeted=0.6):
     """1-4 successive requests on one instance; each names the variables *added* (or 'all') and a point."""
     ins, outs = process_io(spec["root"])
     n_pts = 1 if rng.random() < 0.6 else 2
@@ -276,7 +290,44 @@ def random_requests(rng, spec):
                              p=[0.25, 0.15, 0.2, 0.15, 0.15, 0.1]))
     n = int(rng.integers(2, 5))
     reqs = []
-    if pattern == "single":
+    # compositions with an overwritten variable: part of the histories restrict the requested inputs to those the
+    # new value does not depend on (the overwriting discipline is then pruned by the graph traversal), or to those only
+    targets = []
+    for ev in overwrite_events(spec):
+        excl = [i for i in ins if i not in ev["after"]]
+        only = [i for i in ins if i in ev["after"]]
+        # the sharpest shape first: the replaced value depends on an excluded input, the producer does not read the
+        # name and a later discipline reads the new value (a stale derivative would then reach an output)
+        sharp = ev["pure"] and ev["read_after"] and any(i in ev["before"] for i in excl)
+        if excl:
+            targets.append(("exclude", ev, excl, sharp))
+        if only and excl:
+            targets.append(("only", ev, only, sharp))
+    if targets and rng.random() < p_targeted:
+        wanted = "exclude" if rng.random() < 0.65 else "only"
+        pick = [t for t in targets if t[0] == wanted] or targets
+        pick = [t for t in pick if t[3]] or pick
+        mode, ev, pool, sharp = pick[int(rng.integers(len(pick)))]
+        first = sub(pool)
+        prefer = [i for i in pool if i in ev["before"]]
+        if mode == "exclude" and prefer and not set(first) & set(prefer):
+            first = sorted(set(first) | {prefer[int(rng.integers(len(prefer)))]})
+        t_outs = list(outs) if rng.random() < 0.7 else sub(outs)
+        shape = str(rng.choice(["first", "after-all", "later"], p=[0.55, 0.1, 0.35]))
+        pattern = f"overwrite-{mode}-{shape}" + ("-sharp" if sharp else "")
+        if shape == "first":
+            reqs = [{"ins": first, "outs": t_outs}]
+            for _ in range(int(rng.integers(0, 3))):
+                reqs.append({"all": True} if rng.random() < 0.3 else {"ins": sub(ins, 0), "outs": sub(outs, 0)})
+        elif shape == "after-all":
+            reqs = [{"all": True}, {"ins": first, "outs": t_outs}]
+            if rng.random() < 0.5:
+                reqs.append({"ins": sub(pool), "outs": sub(outs, 0)})
+        else:
+            reqs = [{"ins": [first[0]], "outs": sub(outs)}, {"ins": first, "outs": t_outs}]
+            if rng.random() < 0.5:
+                reqs.append({"ins": sub(pool), "outs": list(outs)})
+    elif pattern == "single":
         reqs = [{"ins": sub(ins), "outs": sub(outs)}]
     elif pattern == "all":
         reqs = [{"all": True}]
@@ -311,6 +362,57 @@ def random_requests(rng, spec):
 
 
 # =========================================================================== structure
+def overwrite_events(spec):
+    """Re-productions of a live name inside the chains of a composition (numbers-free).
+
+    Each event is ``{"var", "after", "before"}``: the process inputs which the new value / the replaced value of
+    ``var`` depend on *through the grammar names* (what gemseo's graph traversal sees: a discipline none of whose
+    inputs depends on the requested inputs is pruned and gets an empty Jacobian).
+    """
+    events = []
+    ins, _ = process_io(spec["root"])
+
+    def fwd(node, env):
+        t = node["t"]
+        if t == "leaf":
+            dep = frozenset()
+            for i, _ in node["ins"]:
+                dep |= env.get(i, frozenset([i]))
+            return {o: dep for o, _ in node["outs"]}
+        children = node["children"]
+        if t in ("chain", "mdachain"):
+            if t == "mdachain":
+                children = [children[k] for k in topo_order(children)]
+            local, produced = dict(env), {}
+            ios = [process_io(ch) for ch in children]
+            for k, ch in enumerate(children):
+                outs = fwd(ch, local)
+                for v, dep in outs.items():
+                    if v in local and t == "chain":
+                        events.append({"var": v, "after": dep, "before": local[v],
+                                       # the producer does not read the name it replaces
+                                       "pure": v not in ios[k][0],
+                                       # a later discipline of the same chain reads the new value
+                                       "read_after": any(v in ios[j][0] for j in range(k + 1, len(children)))})
+                local.update(outs)
+                produced.update(outs)
+            return produced
+        merged, per_child = {}, []
+        for ch in children:
+            outs = fwd(ch, env)
+            per_child.append(outs)
+            merged.update(outs)
+        for name in node.get("sum", ()):
+            dep = frozenset()
+            for o in per_child:
+                dep |= o.get(name, frozenset())
+            merged[name] = dep
+        return merged
+
+    fwd(spec["root"], {n: frozenset([n]) for n in ins})
+    return events
+
+
 def walk(node):
     yield node
     for ch in node.get("children", ()):
